@@ -178,6 +178,7 @@ def sig_operands(sig):
     m = re.search(r"\(([^()]*(?:\([^()]*\)[^()]*)*)\)\s*(?:const)?\s*$", sig.strip())
     params = split_args(m.group(1), angle=True) if m else []
     vecs, scalars = [], []
+    sig_operands.by_reference = []
     for p in params:
         p = p.strip()
         if not p or p.startswith("ADLTag") or p == "int":
@@ -187,6 +188,8 @@ def sig_operands(sig):
             vecs.append(name)
         else:
             scalars.append(name)
+            if "&" in p:
+                sig_operands.by_reference.append(name)
     return vecs, scalars
 
 
@@ -251,6 +254,11 @@ def translate_loop_hh(src):
             vecs, scalars = sig_operands(sig)
             vec_names = (["(*this)"] if short in ("PREFIX_OP", "UNARY_OP", "ASSIGNMENT_OP") else []) + vecs
             dst, inplace, args = parse_statement(stmt, var, sym, vec_names, scalars)
+            if inplace and sig_operands.by_reference:
+                # the loop writes the lanes of *this while it keeps reading the scalar: `v += lane(k, v)` would see the
+                # scalar change under its feet; the model (and the specification) take the scalar by value
+                raise TranslateError("%s: scalar operand %s of an in-place operator is passed by reference"
+                                     % (name, sig_operands.by_reference))
             # whatever else the overload does must be the declaration of `out`, the pragma and the return
             rest = nospace(FOR_RE.sub("", fbody))
             rest = rest.replace("DUNE_PRAGMA_OMP_SIMD", "")
